@@ -255,6 +255,10 @@ class _ReusablePoolExecutor(ProcessPoolExecutor):
                 time.sleep(1e-3)
 
             self._adjust_process_count()
+            # Wake up the executor manager thread so that it also waits on the
+            # sentinels of the newly spawned workers.
+            with self._shutdown_lock:
+                self._executor_manager_thread_wakeup.wakeup()
             processes = list(self._processes.values())
             while not all(p.is_alive() for p in processes):
                 time.sleep(1e-3)
